@@ -232,10 +232,15 @@ func TestC03(t *testing.T) {
 	st.SetRule(ruleC03)
 	rapid.Check(t, func(rt *rapid.T) {
 		w := newWorld("C03", worldCfg{V1: true, V2: true, WhiteBox: true, IndexReads: true})
+		w.drawCheckPeriod(rt)
 		s := drawSchema(rt, "tbl", schemaCfg{KeyTypes: []string{"S", "S", "S", "N"}, MaxIndexes: 3, MinIndexes: 1})
 		o := avOpts(2, true)
 		g := newTgen(rt, s, o, rapid.IntRange(3, 5).Draw(rt, "poolSize"))
 		g.maxAttrs = 2
+		// few attribute names, of any type: an index created later on "a" or
+		// "b" meets items that lack it, hold it with the right type, or with a
+		// wrong one
+		g.attrNames = []string{"a", "b", "c"}
 		fail := func(f *failure) {
 			if f != nil {
 				failCase(rt, "C03", "history:C03", f, w.asCase())
@@ -281,6 +286,22 @@ func TestC03(t *testing.T) {
 					rt.Skip("clear rarely")
 				}
 				step(model.Op{Kind: "ClearTable", Table: s.Table})
+			},
+			"clearAndReload": func(rt *rapid.T) {
+				// a fixture reload: clear, then put as many items as there were,
+				// with no read in between
+				if rapid.IntRange(0, 4).Draw(rt, "reallyReload") != 0 {
+					rt.Skip("reload rarely")
+				}
+				n := len(w.m.Tables[s.Table].Items)
+				var items []model.Item
+				for i := 0; i < n+rapid.IntRange(0, 1).Draw(rt, "reloadExtra"); i++ {
+					items = append(items, g.item(rt))
+				}
+				step(model.Op{Kind: "ClearTable", Table: s.Table})
+				for _, it := range items {
+					step(model.Op{Kind: "Put", Table: s.Table, Item: it})
+				}
 			},
 			"addIndex": func(rt *rapid.T) {
 				if lateIdx >= 2 {
@@ -341,7 +362,8 @@ func TestC03(t *testing.T) {
 				}
 				step(model.Op{Kind: "DeleteIndex", Table: s.Table, Index: ix.Name})
 			},
-			"": func(rt *rapid.T) { fail(w.check()) },
+			"": func(rt *rapid.T) { fail(w.maybeCheck()) },
 		})
+		fail(w.check())
 	})
 }
